@@ -109,6 +109,11 @@ func (e *Encoder) applyContract(fc *FuncContract, callee *ssa.Function, args []V
 			env.vars[names[i]] = args[i]
 		}
 	}
+	for i, a := range args { // (functions of dependencies have no built Params: bind by position)
+		if i < len(names) && names[i] != "_" && names[i] != "" {
+			env.vars[names[i]] = a
+		}
+	}
 	for i, fv := range callee.FreeVars {
 		if i < len(bindings) {
 			env.vars[fv.Name()] = bindings[i]
